@@ -24,6 +24,7 @@ import (
 	"sort"
 	"strings"
 	"testing"
+	"time"
 
 	"lunar/aggregation-plugin/common"
 	"lunar/aggregation-plugin/discovery"
@@ -65,6 +66,9 @@ type kase struct {
 	// WriteFail: one flag per batch of CutsB: the state file cannot be written while that batch is flushed (a
 	// directory sits at its path); a later flush succeeds and no restart happens in between, so nothing may be lost
 	WriteFail []bool `json:"state_file_write_fails,omitempty"`
+	// ZoneMin: the local time zone of the plugin process, minutes east of UTC (the statistics carry absolute
+	// instants: nothing may depend on it)
+	ZoneMin int `json:"local_zone_minutes_east,omitempty"`
 }
 
 func (r rec) accessLog(i int) common.AccessLog {
@@ -851,7 +855,7 @@ var productionTrees = genOpts{thresholds: []int{productionThreshold}, maxRecs: 4
 	burstMin: func(th int) int { return th - 1 }}
 
 func genCase(t *rapid.T, g genOpts) kase {
-	c := kase{}
+	c := kase{ZoneMin: rapid.SampledFrom([]int{0, 0, 180, -300, 330, 765, -720}).Draw(t, "zone")}
 	maxRecs := g.maxRecs
 	c.Threshold = rapid.SampledFrom(g.thresholds).Draw(t, "threshold")
 	nT := rapid.IntRange(1, 4).Draw(t, "ntemplates")
@@ -1252,6 +1256,9 @@ type outcome struct {
 
 // evaluate runs the case four ways and applies the oracles.
 func evaluate(c kase, dir string) (o outcome) {
+	prevLocal := time.Local
+	time.Local = time.FixedZone(fmt.Sprintf("UTC%+dm", c.ZoneMin), c.ZoneMin*60)
+	defer func() { time.Local = prevLocal }()
 	if _, err := buildTree(c); err != nil {
 		o.outside = err
 		return
